@@ -136,6 +136,11 @@ pub open spec fn is_num(v: SVal) -> bool { v is Int || v is UInt || v is Float }
 
 // ---- arithmetic (property C08): exact or overflow; mixed numeric kinds are an error ----
 
+/// `size()`: number of elements, of bytes of the UTF-8 text, of bytes; maps are stated on the concrete entry count (contract of size)
+pub open spec fn size_spec(v: SVal) -> Option<int> {
+    match v { SVal::List(l) => Some(l.len() as int), SVal::Str(t) => Some(str_byte_len(t) as int), SVal::Bytes(b) => Some(b.len() as int),
+              SVal::Map(_) => None, _ => None }
+}
 #[verifier::opaque]
 pub open spec fn add_spec(l: SVal, r: SVal) -> SRes {
     match (l, r) {
